@@ -158,17 +158,28 @@ ShapeEdges(sh) ==
     ELSE IF sh.dim = 1 THEN PathEdges(sh.verts)
     ELSE PointEdges(sh.verts)
 
-ShapeRec(sh) ==
+\* the concrete Go type that realises shape number k (1-based) under kind variant kv
+SingleKinds == <<"Loop", "Polygon", "LaxPolygon", "LaxLoop">>
+MultiKinds == <<"Polygon", "LaxPolygon">>
+KindOf(sh, num, kv) ==
+    IF sh.dim = 0 THEN "PointVector"
+    ELSE IF sh.dim = 1 THEN (IF (kv + num - 1) % 2 = 0 THEN "Polyline" ELSE "LaxPolyline")
+    ELSE IF Len(sh.pcs) = 1 THEN SingleKinds[((kv + num - 1) % 4) + 1]
+    ELSE MultiKinds[((kv + num - 1) % 2) + 1]
+
+ShapeRec(sh, num, kv) ==
     LET edges == ShapeEdges(sh)
+        kind == KindOf(sh, num, kv)
         \* complement: in <-> out (cell and vertex classes: 0 <-> 1, touching classes 2 <-> 4)
         Flip(m, perm) == [a \in 1..Len(m) |-> [b \in 1..Len(m[a]) |-> perm[m[a][b] + 1]]]
-    IN  [dim |-> sh.dim, face |-> sh.face, step |-> sh.step, pcs |-> sh.pcs, inv |-> sh.inv,
+    IN  [dim |-> sh.dim, face |-> sh.face, step |-> sh.step, pcs |-> sh.pcs, inv |-> sh.inv, kind |-> kind,
          depths |-> [k \in 1..Len(sh.pcs) |-> Depth(sh.pcs, k)],
          loops |-> ShapeLoops(sh),
          nedges |-> Len(edges),
          inM |-> IF sh.dim # 2 THEN <<>> ELSE IF sh.inv THEN Flip(InM(sh.pcs), <<1, 0>>) ELSE InM(sh.pcs),
          vclass |-> IF sh.dim # 2 THEN <<>> ELSE IF sh.inv THEN Flip(VClassM(sh.pcs), <<1, 0, 2>>) ELSE VClassM(sh.pcs),
-         cclass |-> IF sh.dim = 2 /\ WithCells
+         \* cell relations exist for the Region types only
+         cclass |-> IF sh.dim = 2 /\ WithCells /\ kind \in {"Loop", "Polygon"}
                     THEN [d \in 1..3 |-> IF sh.inv THEN Flip(CellClassM(sh.pcs, d - 2), <<1, 0, 4, 3, 2>>) ELSE CellClassM(sh.pcs, d - 2)]
                     ELSE <<>>,
          met |-> IF WithCells THEN [k \in 1..Len(edges) |-> Met(edges[k])] ELSE <<>>]
@@ -227,11 +238,11 @@ Emit ==
     IF ~Full THEN TRUE
     ELSE IF t[2] = "loop"
     THEN PrintT(<<"CASE", ToJson([op |-> Op, g |-> G, face |-> Face, kv |-> KV,
-                                  shapes |-> << ShapeRec(Poly(Face, t[3], Step)) >>])>>)
+                                  shapes |-> << ShapeRec(Poly(Face, t[3], Step), 1, KV) >>])>>)
     ELSE IF t[2] = "tile"
     THEN PrintT(<<"CASE", ToJson([op |-> Op, g |-> G, face |-> Face, kv |-> KV,
-                                  shapes |-> [k \in 1..Len(t[3]) |-> ShapeRec(Poly(Face, t[3][k], Step))]])>>)
-    ELSE LET recs == [k \in 1..Len(t[3]) |-> ShapeRec(t[3][k])]
+                                  shapes |-> [k \in 1..Len(t[3]) |-> ShapeRec(Poly(Face, t[3][k], Step), k, KV)]])>>)
+    ELSE LET recs == [k \in 1..Len(t[3]) |-> ShapeRec(t[3][k], k, KV)]
              qs == QuerySeq
              es == Explicit([k \in 1..Len(t[3]) |-> ShapeEdges(t[3][k])])
          IN  PrintT(<<"CASE", ToJson([op |-> Op, g |-> G, face |-> Face, kv |-> KV, shapes |-> recs,
